@@ -301,11 +301,22 @@ class H2Server:
               "proxy_hop": False, "data_frames": [], "end_stream_count": 0, "resp_end": None, "closes": False,
               "open_at_start": open_before + 1, "limit_at_start": limit, "refused": False}
         self.exchanges.append(ex)
+        if token is not None:
+            self.net.seen_tokens.add(token)
         self.streams[sid] = {"ex": ex, "recv_window": self.acked[S_INITIAL_WINDOW_SIZE] if not self.pending_settings else
                              max([self.acked[S_INITIAL_WINDOW_SIZE]] + [int(s.get(str(S_INITIAL_WINDOW_SIZE), s.get(S_INITIAL_WINDOW_SIZE, 0))) for s in self.pending_settings if (str(S_INITIAL_WINDOW_SIZE) in s or S_INITIAL_WINDOW_SIZE in s)]),
                              "send_window": self.client_settings[S_INITIAL_WINDOW_SIZE], "closed_in": False,
                              "closed_out": False, "responded": False, "uncredited": 0}
         self.max_open_seen = max(self.max_open_seen, open_before + 1)
+        if self.net.deferred:
+            ready = [(srv, s_) for srv, s_ in self.net.deferred if srv.net.plan(srv.streams[s_]["ex"]["token"]).get("after_request") in self.net.seen_tokens]
+            for item in ready:
+                self.net.deferred.remove(item)
+                srv, s_ = item
+                if s_ in srv.streams and not srv.streams[s_]["responded"] and not srv.streams[s_]["closed_out"]:
+                    srv._respond(s_)
+                    if srv is not self:
+                        srv.pump()
         if self.cfg.get("grant_on_headers"):
             self._wu(sid, int(self.cfg["grant_on_headers"]))
         self._count("headers")
@@ -481,9 +492,15 @@ class H2Server:
 
     def _respond(self, sid):
         st = self.streams[sid]
-        st["responded"] = True
         ex = st["ex"]
         plan = self.net.plan(ex["token"])
+        dep = plan.get("after_request")
+        if dep is not None and dep not in self.net.seen_tokens:
+            # a reactive server (long poll): this response is produced only once the request `dep` has been received
+            self.net.deferred.append((self, sid))
+            st["deferred"] = True
+            return
+        st["responded"] = True
         ex["plan"] = plan
         method = ex["method"]
         body = response_body(plan, ex["token"], method)
